@@ -1346,6 +1346,16 @@ class C04(Property):
                         f'line #{bad}: {ml[bad] if bad < len(ml) else ""}'))
             elif c['kind'] == 'pair' or c.get('monitor_only'):
                 res.traces_validated += 1
+                if model is not None and c['kind'] == 'pair':
+                    # the invariant of `C04_pair_no_requeue_lost`, evaluated by the Lean definitions on every sampled
+                    # control-plane state of the real pair
+                    for j, (line, mo) in enumerate(zip(ml, model[i])):
+                        res.count('pair-sample:' + ' '.join(line.split(' ')[1:4]))
+                        if not mo.startswith('inv=1'):
+                            res.disagreements.append(Disagreement(
+                                c, line, mo, f'sample #{j}: the real pair is in a state the control-plane model '
+                                'cannot reach (invariant of C04_pair_no_requeue_lost)'))
+                            break
             if len(res.samples) < 3 and i >= n_fixed and len(str(c)) < 400 and _nontrivial(c):
                 res.samples.append({'case': c, 'impl': obs[:12]})
         return res
